@@ -2,7 +2,7 @@
     Property theorems only (closed by [exact]); see DESIGN.md section 5 C01
     for the full statement and for what is still missing. *)
 From Coq Require Import ZArith Bool List String.
-From PV Require Import Model.Term Model.Unify Model.Clause Model.Machine Proofs.Promise Proofs.Trampoline Proofs.FuelMono.
+From PV Require Import Model.Term Model.Unify Model.Clause Model.Machine Proofs.Promise Proofs.Trampoline Proofs.FuelMono Proofs.ForceComplete.
 Import ListNotations.
 Open Scope Z_scope.
 
@@ -71,3 +71,25 @@ Example C01_fuel_example :
   let st := init_state [] 100 [Var 0] 5 None in
   fst (force 50 stack st) = FFalse /\ force 500 stack st = force 50 stack st.
 Proof. split; vm_compute; reflexivity. Qed.
+
+(** Conversely, whatever the compositional semantics derives (otherwise than
+    "out of fuel") the trampoline computes with enough fuel: [Run] and [force]
+    define the same partial function of stack and state, so everything stated
+    about [Run], [Resume], [After], [Recover] (C03, C04, C13) is a statement
+    about what the trampoline returns (Proofs/ForceComplete.v). *)
+Theorem C01_force_complete :
+  forall stack st r st', Run stack st r st' -> r <> FOutOfFuel -> exists n, force n stack st = (r, st').
+Proof. exact force_complete. Qed.
+Print Assumptions C01_force_complete.
+
+Theorem C01_force_iff_run :
+  forall stack st r st', r <> FOutOfFuel ->
+    ((exists n, force n stack st = (r, st')) <-> Run stack st r st').
+Proof. exact force_iff_run. Qed.
+Print Assumptions C01_force_iff_run.
+
+Theorem C01_run_deterministic :
+  forall stack st r1 st1 r2 st2,
+    Run stack st r1 st1 -> r1 <> FOutOfFuel -> Run stack st r2 st2 -> r2 <> FOutOfFuel -> r1 = r2 /\ st1 = st2.
+Proof. exact run_deterministic. Qed.
+Print Assumptions C01_run_deterministic.
